@@ -185,6 +185,15 @@ class Engine(CoreMixin, ExprMixin, CallMixin, LibMixin, StmtMixin, ReMixin):
 
     def lemma_obligations(self):
         """generic lemmas whose instances were assumed during execution are proved here, once"""
+        if "joinr_prefix_step" in self.lemmas_used:
+            xs = self.ctx.const("lem_ys", smt.seq(STR))
+            k = self.ctx.const("lem_k", INT)
+            st = State()
+            st.assume(smt.And(smt.Le(smt.Int(0), k), smt.Lt(k, smt.Len(xs))))
+            goal = smt.Eq(self.join_empty(smt.Substr(xs, smt.Int(0), smt.Add(k, smt.Int(1)))),
+                          smt.Concat(self.join_empty(smt.Substr(xs, smt.Int(0), k)), smt.At(xs, k)))
+            self.oblige(st, goal, "%s#lemma.joinr_prefix_step" % self.short, "lemma", self.first_line,
+                        "''.join(xs[:k+1]) == ''.join(xs[:k]) + xs[k]")
         if "joinr_append" in self.lemmas_used:
             xs = self.ctx.const("lem_xs", smt.seq(STR))
             x = self.ctx.const("lem_x", STR)
